@@ -71,22 +71,22 @@ impl SocketSend for ReqSocket {
 #[async_trait]
 impl SocketRecv for ReqSocket {
     async fn recv(&mut self) -> ZmqResult<ZmqMessage> {
-        match self.current_request.take() {
+        // The outstanding request is only settled once this call completes: if the future is
+        // dropped while waiting, the socket still owes this recv.
+        match self.current_request.clone() {
             Some(peer_id) => {
                 if let Some(mut peer) = self.backend.peers.get_async(&peer_id).await {
-                    match peer.recv_queue.next().await {
+                    let result = match peer.recv_queue.next().await {
                         Some(Ok(Message::Message(mut m))) => {
                             if m.len() < 2 {
-                                return Err(ZmqError::Other(
-                                    "Invalid message format: too few frames",
-                                ));
-                            }
-                            if !m.pop_front().unwrap().is_empty() {
-                                return Err(ZmqError::Other(
+                                Err(ZmqError::Other("Invalid message format: too few frames"))
+                            } else if !m.pop_front().unwrap().is_empty() {
+                                Err(ZmqError::Other(
                                     "Invalid message format: missing delimiter",
-                                ));
+                                ))
+                            } else {
+                                Ok(m)
                             }
-                            Ok(m)
                         }
                         Some(Ok(_)) => {
                             // Non-message frames should be ignored by the caller
@@ -94,8 +94,11 @@ impl SocketRecv for ReqSocket {
                         }
                         Some(Err(error)) => Err(error.into()),
                         None => Err(ZmqError::NoMessage),
-                    }
+                    };
+                    self.current_request = None;
+                    result
                 } else {
+                    self.current_request = None;
                     Err(ZmqError::Other("Server disconnected"))
                 }
             }
